@@ -197,7 +197,12 @@ def main(argv=None):
 
     if args.replay:
         rec = json.loads(Path(args.replay).read_text())
-        bad = mod.replay(rec["case"])
+        scratch = Path(tempfile.mkdtemp(prefix=f"mokaverif_{prop}_", dir=core.scratch_root()))
+        os.environ["VERIF_SCRATCH"] = str(scratch)
+        try:
+            bad = mod.replay(rec["case"])
+        finally:
+            shutil.rmtree(scratch, ignore_errors=True)
         for v in bad:
             print("REPLAY-VIOLATION", v["signature"], "|", v["message"][:300])
         print(f"replay: {len(bad)} violation(s)")
